@@ -44,6 +44,17 @@ pub enum C06Scenario {
     LeafOutput { memory: Vec<Word>, second_pass: bool },
     /// arbitrary graph arrays over trivial programs
     RawGraph { starts: Vec<u16>, edges: Vec<u16>, collect_all: bool },
+    /// set validation on sets at and beyond every limit: (solutions, slots, slot words, mutations
+    /// per solution, key words, value words, duplicate keys)
+    SetValidation {
+        n_sols: usize,
+        n_slots: usize,
+        slot_words: usize,
+        n_muts: usize,
+        key_words: usize,
+        value_words: usize,
+        dup_key: bool,
+    },
     /// contract validation with an untrusted signature: `sig` (64 bytes) and recovery id
     SignedContract {
         preds: Vec<(Vec<u16>, Vec<u16>)>,
@@ -221,6 +232,48 @@ pub fn evaluate(sc: &C06Scenario) -> (Option<Finding>, Vec<ExecInfo>, u64) {
             let (ff, info) = run_workload(w);
             infos.push(info);
             f = ff;
+        }
+        C06Scenario::SetValidation {
+            n_sols,
+            n_slots,
+            slot_words,
+            n_muts,
+            key_words,
+            value_words,
+            dup_key,
+        } => {
+            evals += 3;
+            use essential_types::solution::{Solution, SolutionSet};
+            let set = SolutionSet {
+                solutions: (0..*n_sols)
+                    .map(|i| Solution {
+                        predicate_to_solve: essential_types::PredicateAddress {
+                            contract: essential_types::ContentAddress(CONTRACT),
+                            predicate: essential_types::ContentAddress([i as u8; 32]),
+                        },
+                        predicate_data: (0..*n_slots).map(|_| vec![1; *slot_words]).collect(),
+                        state_mutations: (0..*n_muts)
+                            .map(|j| Mutation {
+                                key: {
+                                    let mut k = vec![0; *key_words];
+                                    if let Some(l) = k.last_mut() {
+                                        *l = if *dup_key { 0 } else { j as Word };
+                                    }
+                                    k
+                                },
+                                value: vec![2; *value_words],
+                            })
+                            .collect(),
+                    })
+                    .collect(),
+            };
+            if let Err(e) = guard("solution::check_set", || {
+                let _ = essential_check::solution::check_set(&set);
+                let _ = essential_check::solution::check_solutions(&set.solutions);
+                let _ = essential_check::solution::check_set_state_mutations(&set);
+            }) {
+                f = Some(e);
+            }
         }
         C06Scenario::SignedContract { preds, salt, sig, rec_id } => {
             evals += 2;
@@ -590,6 +643,27 @@ pub fn scenario_for(batch: &str, case: u64, run_seed: u64) -> Option<C06Scenario
                 starts,
                 edges,
                 collect_all: rng.chance(1, 2),
+            }
+        }
+        "c06-contract" if rng.chance(1, 2) => {
+            let lim = |rng: &mut Rng, limit: usize| -> usize {
+                match rng.below(6) {
+                    0 => limit,
+                    1 => limit + 1,
+                    2 => limit.saturating_sub(1),
+                    3 => 0,
+                    _ => rng.usize(4),
+                }
+            };
+            let n_sols = lim(&mut rng, 100).min(101);
+            C06Scenario::SetValidation {
+                n_sols,
+                n_slots: lim(&mut rng, 100).min(101),
+                slot_words: if n_sols <= 3 { lim(&mut rng, 10_000) } else { rng.usize(3) },
+                n_muts: if n_sols <= 2 { lim(&mut rng, 1000) } else { rng.usize(12) },
+                key_words: if n_sols <= 2 { lim(&mut rng, 1000) } else { rng.usize(3) },
+                value_words: if n_sols <= 2 { lim(&mut rng, 10_000).min(10_001) } else { rng.usize(3) },
+                dup_key: rng.chance(1, 4),
             }
         }
         "c06-contract" => {
